@@ -19,15 +19,30 @@ def corpus():
         mk(["D0", "c1:" + e("a"), "S*", "D0", "S*", "D0", "w", "c2:" + e("b"), "t200", "e", "t200"], "w", "write fails inside the window", {1: ("c", [e("a")]), 2: ("c", [e("b")])}),
         mk(["D0", "c1:" + e("a"), "S*", "D0", "S*", "D0", "w", "t100", "e", "t200"], "w", "re-idle write fails", {1: ("c", [e("a")])}),
         mk(["D0", "S*", "h", "t200"], "h", "last handle dropped while idle", {}),
+        mk(["D0", "S*", "N:" + hexs("player"), "D16", "c1:" + e("a"), "e", "t200", "t200"], "cut",
+           "a request interrupts a half received idle reply, then the stream ends", {1: ("c", [e("a")])}),
+        mk(["D0", "S*", "N:" + hexs("player"), "D16", "c1:" + e("a"), "c2:" + e("b"), "r", "t200", "t200"], "r",
+           "a request interrupts a half received idle reply, then reads fail", {1: ("c", [e("a")]), 2: ("c", [e("b")])}),
         mk(["D0", "G:" + hexs(b"ACK [5@0] {} nope\n"), "c1:" + e("a"), "t200", "e", "t200"], "ack", "server answers idle with an error", {1: ("c", [e("a")])}),
         mk(["D0", "c1:" + e("a"), "G:" + hexs(b"foo\n"), "c2:" + e("b"), "t200", "e", "t200"], "invalid", "malformed reply to noidle", {1: ("c", [e("a")]), 2: ("c", [e("b")])}),
         mk(["D0", "c1:" + e("a"), "S*", "D0", "S*", "G:" + hexs(b"foo\n"), "c2:" + e("b"), "c3:" + e("c"), "t50", "t200", "c4:" + e("d"), "t200", "t200"], "invalid", "malformed reply to the request: queued and later requests still resolve, no end of stream needed", {1: ("c", [e("a")]), 2: ("c", [e("b")]), 3: ("c", [e("c")]), 4: ("c", [e("d")])}),
     ]
 
 
+def art_cases(rng):
+    """album_art is a request like any other: when the connection ends in the middle of a transfer it resolves with the failure."""
+    out = []
+    for fault in (["e"], ["S*", "D5", "e"], ["G:" + hexs(b"what\n")], ["r"]):
+        pic = bytes(range(40))
+        labels = ["D0", "a1:" + hexs("foo.mp3")] + ["S*", "D0"] * rng.choice([3, 4, 5]) + fault + ["c2:" + L.spec("echo", "later"), "t200", "e", "t200"]
+        out.append((L.Sched(conf=L.conf(emb=pic, mime=b"image/png", limit=8), labels=labels, note="album_art: connection ends mid-transfer " + fault[-1][:1]),
+                    {"fault": "art", "requests": {}, "cancelled": set(), "notified": []}))
+    return out
+
+
 def gen(ctx):
     rng = ctx.rng
-    items = corpus()
+    items = corpus() + art_cases(rng)
     n = 200 if ctx.tier == "quick" else 4000
     for _ in range(n):
         labels, info, rid = L.gen_session(rng, rng.choice([0, 2, 6, 15, 40]), cancel=True)
@@ -35,7 +50,13 @@ def gen(ctx):
         if kind == "e":
             labels += [rng.choice(["S*", "D0", "S"]), "e"]
         elif kind == "cut":
-            labels += ["S*", "D" + str(rng.choice([1, 2, 3, 5, 8, 13])), "e"]
+            labels += ["S*", "D" + str(rng.choice([1, 2, 3, 5, 8, 13, 16, 17]))]
+            if rng.random() < 0.5:          # a request arrives between the partial delivery and the end of the stream
+                rid += 1
+                lab, k_, specs = L.gen_request(rng, rid)
+                labels.append(lab)
+                info["requests"][rid] = (k_, specs)
+            labels += ["e"]
         elif kind in ("r", "w", "h"):
             labels += [kind]
         else:
@@ -81,6 +102,10 @@ def run(ctx, only=None):
             v.append("the client panicked: " + r["impl_raw"][:300])
         res = t.results()
         evs = [x for _, x in t.events()]
+        if info and info["fault"] == "art":
+            got = res.get(1, (None, "<never resolved>"))[1]
+            if not (got == "closed" or got.startswith("proto:")):
+                v.append(f"the connection ended in the middle of an album-art transfer, but album_art resolved with {got[:100]} instead of the failure")
         if info:
             kinds[info["fault"]] = kinds.get(info["fault"], 0) + 1
             pend = [rid for rid in info["requests"] if rid not in info["cancelled"]]
